@@ -470,8 +470,14 @@ namespace msgpack {
         JSONCONS_VISITOR_RETURN_TYPE visit_byte_string(const byte_string_view& b, 
             uint64_t raw_tag, 
             const ser_context&,
-            std::error_code&) final
+            std::error_code& ec) final
         {
+            if (raw_tag > (std::numeric_limits<uint8_t>::max)())
+            {
+                // the type of an ext value is a single byte
+                ec = msgpack_errc::invalid_ext_type;
+                JSONCONS_VISITOR_RETURN;
+            }
             const std::size_t length = b.size();
             switch (length)
             {
